@@ -41,25 +41,20 @@ fn check_c08(case: &Case) -> Verdict {
         v.nontrivial = r.log.iter().filter(|e| e.kind.is_closure()).count() >= 2;
         return v;
     }
-    // (b) hook level gauge
+    // (b) per run: the threads that executed closures or pulled elements (workers that were spawned but never got any
+    // work do not execute the computation's closures; they are only labelled)
     for run in &rs {
-        if run.spawned > n {
+        let seg = &r.log[run.begin..run.end.min(r.log.len())];
+        let active: BTreeSet<u16> = seg.iter().filter(|e| e.kind.is_closure() && e.tid != 0).map(|e| e.tid).collect();
+        if active.len() > n {
             v.fail = Some(Verdict::fail(
-                format!("Max({n}): {} workers were spawned in one run", run.spawned),
+                format!("Max({n}): {} worker threads executed closures in one run", active.len()),
                 sig("too-many-workers"),
             ));
             return v;
         }
-        if run.max_live > n {
-            v.fail = Some(Verdict::fail(format!("Max({n}): {} workers were alive at the same time", run.max_live), sig("too-many-live")));
-            return v;
-        }
-        if run.max_num_threads > n {
-            v.fail = Some(Verdict::fail(
-                format!("Max({n}): the run resolved its thread limit to {}", run.max_num_threads),
-                sig("limit-ignored"),
-            ));
-            return v;
+        if run.spawned > n {
+            v.label("more than n workers spawned (not all of them executed closures)");
         }
     }
     // (a) closure level gauge (meaningful in free mode; trivially <= 1 under the scheduler)
@@ -248,11 +243,14 @@ fn check_c11(case: &Case) -> Verdict {
     // (2) every worker of every run is handed exactly c
     for run in &rs {
         // a chunk never exceeds a known input length: Exact(c) with c > len is one pull of everything
+        let c_req = c;
         let c = match run.input_len {
             Some(len) => c.min(len.max(1)),
             None => c,
         };
-        if !run.exact || run.chunk != c {
+        // a size at or beyond a known input length means "one pull takes everything" whatever number represents it
+        let whole = |x: usize| matches!(run.input_len, Some(len) if x >= len.max(1) && c_req >= len.max(1));
+        if !run.exact || (run.chunk != c && run.chunk != c_req && !whole(run.chunk)) {
             v.fail = Some(Verdict::fail(
                 format!("Exact({c}) resolved to {}({})", if run.exact { "Exact" } else { "Min" }, run.chunk),
                 sig("resolved"),
@@ -260,7 +258,7 @@ fn check_c11(case: &Case) -> Verdict {
             return v;
         }
         for (tid, wc) in &run.workers {
-            if *wc != c {
+            if *wc != c && *wc != c_req && !whole(*wc) {
                 v.fail = Some(Verdict::fail(
                     format!("Exact({c}): worker {tid} was started with chunk size {wc}"),
                     sig("worker-chunk"),
@@ -286,7 +284,7 @@ fn check_c11(case: &Case) -> Verdict {
             let mut somes = 0usize;
             let mut fin = false;
             let mut in_burst = false;
-            let mut flush = |somes: usize, fin: bool| -> Option<String> {
+            let flush = |somes: usize, fin: bool| -> Option<String> {
                 if fin {
                     (somes > c).then(|| format!("final pull of thread {tid} took {somes} > {c} elements"))
                 } else {
